@@ -112,7 +112,7 @@ pub const RULE: &str = "per (plan, GC worker count, scenario {one request, two c
 pub fn finish(run: &mut Run) {
     run.set("rule", RULE);
     run.set("placement", crate::vm::PLACEMENT);
-    run.assume("sequentially consistent interleavings at the instrumented points only; crossbeam deques / injectors, the sentinel mutex and all plan-level locks are treated as atomic; no spurious condition-variable wake-ups are generated");
+    run.assume("sequentially consistent interleavings at the instrumented points only; crossbeam deques / injectors, the sentinel mutex and all plan-level locks are treated as atomic; spurious condition-variable wake-ups only in the jobs that inject one per execution (it costs a preemption)");
     run.assume("the binding's own waits (stop_all_mutators waiting for the mutator, block_for_gc) are modelled as a mutex + two condition variables; one mutator thread");
 }
 
